@@ -156,8 +156,8 @@ mutual
     | .i16 n => i16ok n
     | .i32 n => i32ok n
     | .i64 n => i64ok n
-    | .f32 n => decide (n < 4294967296)
-    | .f64 n => decide (n < 18446744073709551616)
+    | .f32 n => decide (n < 4294967296) && finite32 n
+    | .f64 n => decide (n < 18446744073709551616) && finite64 n
     | .decimal s v => decide (s < 256) && i32ok v
     | .str s => decide (s.length ≤ 2147483647)
     | .arr xs => confFs xs && decide ((encFVals xs).length < 4294967296)
@@ -256,16 +256,16 @@ mutual
       cases fuel with
       | zero => simp [needF] at hf
       | succ f =>
-        simp only [confF, decide_eq_true_eq] at hc
+        simp only [confF, Bool.and_eq_true, decide_eq_true_eq] at hc
         have hu := readUInt_be 4 n (by omega) rest tail
-        simp [readField, encFVal, readUInt1, hu]
+        simp [readField, encFVal, readUInt1, hu, hc.2]
     | .f64 n, hc, fuel, hf, rest, tail => by
       cases fuel with
       | zero => simp [needF] at hf
       | succ f =>
-        simp only [confF, decide_eq_true_eq] at hc
+        simp only [confF, Bool.and_eq_true, decide_eq_true_eq] at hc
         have hu := readUInt_be 8 n (by omega) rest tail
-        simp [readField, encFVal, readUInt1, hu]
+        simp [readField, encFVal, readUInt1, hu, hc.2]
     | .decimal sc v, hc, fuel, hf, rest, tail => by
       cases fuel with
       | zero => simp [needF] at hf
